@@ -289,8 +289,19 @@ func (c *c11Cmp) compare(w c11Want) error {
 		}
 		if we.BodyRef != "" {
 			key, _ := c.typeKey(we.BodyRef)
-			if len(ep.Body) != 1 || ep.Body[0].Ref != key {
-				return c.fail("", "%s: body parameter %+v, want one of type %q", name, ep.Body, key)
+			// one body parameter per media type the body is offered in, each of the body's type
+			var gotMedia []string
+			for _, b := range ep.Body {
+				if b.Ref != key {
+					return c.fail("", "%s: body parameter %+v, want type %q", name, b, key)
+				}
+				gotMedia = append(gotMedia, b.Attr["mediatype"])
+			}
+			wantMedia := append([]string{}, we.Media...)
+			sort.Strings(gotMedia)
+			sort.Strings(wantMedia)
+			if strings.Join(gotMedia, ",") != strings.Join(wantMedia, ",") {
+				return c.fail("", "%s: body parameters for media types %v, the foreign document offers the body as %v", name, gotMedia, wantMedia)
 			}
 		}
 		got := map[string]c11MRet{}
